@@ -111,7 +111,9 @@ class SimCluster:
         always_dup: bool = False,
         always_pickle: bool = False,
         crash_after: set | None = None,
+        trace_p: float = 0.0,
     ):
+        self.trace_p = trace_p
         self.tape = tape
         self.W = max(1, int(workers))
         self.faults = dict(DEFAULT_FAULTS)
@@ -143,6 +145,8 @@ class SimCluster:
             "sim_time": 0,
             "steps": 0,
             "data_loaded": 0,
+            "traced_tasks": 0,
+            "traced_lines": 0,
         }
         self.loaded_data: list = []  # canonical keys of DataNodes loaded (history for C09)
         self.order: list = []  # finish order (canonical key strings)
@@ -400,6 +404,8 @@ class SimCluster:
         writable copies under the digest monitor before it counts as a mutation."""
         st, log = self.stats, self.log
         try:
+            if self.trace_p and self.tape.chance("obs.trace", self.trace_p):
+                return self._call(self._traced, node, inputs, k)
             return self._call(node, inputs)
         except ValueError as e:
             if "read-only" not in str(e):
@@ -425,6 +431,47 @@ class SimCluster:
             raise
         except Exception as e:  # noqa: BLE001
             raise TaskError(k, e) from e
+
+    def _traced(self, node, inputs, k):
+        """Run a task under sys.settrace: at every line executed inside flox the digests of the
+        task's input arrays are compared with their values at task start.  A difference that is
+        gone again when the task returns is a *transient* write: invisible at task boundaries,
+        but visible to any concurrent task that shares the input."""
+        import sys
+
+        arrays = [(d, a, digest(a)) for d, v in inputs.items() for a in iter_arrays(v)]
+        hit: dict = {}
+        st = self.stats
+        st["traced_tasks"] += 1
+
+        def local(frame, event, arg):
+            if event == "line" and not hit:
+                st["traced_lines"] += 1
+                for d, a, dg in arrays:
+                    if digest(a) != dg:
+                        hit.update(input=keystr(d), where=f"{frame.f_code.co_filename.rsplit('/', 1)[-1]}:{frame.f_lineno} in {frame.f_code.co_name}")
+                        break
+            return local
+
+        def tracer(frame, event, arg):
+            if "/flox/" in frame.f_code.co_filename:
+                return local
+            return None
+
+        old = sys.gettrace()
+        sys.settrace(tracer)
+        try:
+            result = node(inputs)
+        finally:
+            sys.settrace(old)
+        if hit and all(digest(a) == dg for _, a, dg in arrays):
+            raise Violation(
+                "mutation",
+                f"task {keystr(k)} temporarily modifies its input {hit['input']} (restored before it returns, but visible to "
+                f"a concurrent task sharing that input) at {hit['where']}",
+                key=keystr(k), input=hit["input"], transient=True,
+            )
+        return result
 
     def _execute(self, k, node, inputs, pickled_task, clock, s, w):
         tape, log, F, st = self.tape, self.log, self.faults, self.stats
